@@ -76,7 +76,42 @@ def job_real():
         results.append(discharge(Obligation('cf_csqrt path %s: w^2 == z, Re w >= 0 (Im w >= 0 on the cut)' % ''.join('T' if d else 'F' for d in p.decisions), goal, fin + p.pc,
                                             replay=lambda md: replay_fn('csqrt', md), key='csqrt:principal', timeout_ms=solve.qtimeout(60, 300))))
     results.append(reach_twin('real identities', fin))
-    return {'results': results, 'encoded': loader.ENCODED, 'axioms': CTX.axiom_notes, 'paths': len(paths), 'label': 'real identities'}
+    # the same two kernels on the rest of the range (the property includes values near overflow): the overflow-avoiding branches (csqrt: z/4 then rescale; hypot: its own scaling) must
+    # still return the principal root / the modulus. Over the reals the actual magnitude of the threshold is immaterial, so THRESH is a positive SYMBOL here (no 300-digit rationals in the
+    # queries) and x, y are unbounded: every path of the source, for every threshold value, is covered.
+    Tsym = Q.sym('THRESH_sym')
+    saved = {k_: ns.get(k_) for k_ in ('THRESH',)}
+    ns['THRESH'] = Tsym
+    big = [Tsym.re > 0]
+
+    def rp_big(which):
+        def rp(md):
+            ok, detail = False, ''
+            # the canonical near-overflow points decide the replay (the solver's point is relative to a symbolic threshold)
+            for xv, yv in ((1e308, 1e308), (-1e308, 1e308), (1.5e308, -1e300), (1e300, 1.2e308), (0.3, -0.7), (-2.0, 0.0)):
+                ok, detail = replay_fn(which, {'x': xv, 'y': yv})
+                if ok:
+                    break
+            return ok, detail
+        return rp
+    ex = Explorer(assumptions=big)
+    for p in ex.run(lambda: fns['cf_hypot'](x, y)):
+        h = Q.of(p.result)
+        results.append(discharge(Obligation('cf_hypot, unbounded arguments and symbolic overflow threshold, path %s: h >= 0 and h^2 == x^2 + y^2' % ''.join('T' if d else 'F' for d in p.decisions),
+                                            z3.And((h >= 0).c, eq_goal(h * h, x * x + y * y)), big + p.pc, replay=rp_big('hypot'), key='hypot:big')))
+    ex = Explorer(assumptions=big, max_paths=64)
+    paths_big = ex.run(lambda: fns['cf_csqrt'](Z(x, y)))
+    for p in paths_big:
+        if p.exc is not None:
+            raise RuntimeError('csqrt raised %r' % p.exc)
+        r = p.result
+        re, im = Q.of(r.real), Q.of(r.imag)
+        goal = z3.And(eq_goal(re * re - im * im, x), eq_goal(2 * re * im, y), (re >= 0).c, z3.Implies(z3.And(eq_goal(y, Q(0)), (x < 0).c), (im >= 0).c))
+        results.append(discharge(Obligation('cf_csqrt, unbounded arguments and symbolic overflow threshold (scaled and unscaled branches), path %s: w^2 == z, Re w >= 0 (Im w >= 0 on the cut)' %
+                                            ''.join('T' if d else 'F' for d in p.decisions), goal, big + p.pc, replay=rp_big('csqrt'), key='csqrt:big', timeout_ms=solve.qtimeout(60, 300))))
+    ns.update(saved)
+    results.append(reach_twin('real identities near overflow', big))
+    return {'results': results, 'encoded': loader.ENCODED, 'axioms': CTX.axiom_notes, 'paths': len(paths) + len(paths_big), 'label': 'real identities'}
 
 
 def replay_fn(which, md):
@@ -540,7 +575,8 @@ def job_sqrt_neg():
     for region, A in (('Im z > 0', [y.re > 0]), ('Im z < 0', [y.re < 0]), ('Im z = 0, Re z < 0', [y.re == 0, x.re < 0]), ('Im z = 0, Re z > 0', [y.re == 0, x.re > 0])):
         CTX.facts = A
         w = Q.of(fns['_sqrt_neg_python'](x + Q(0, 1) * y, False))
-        goal = z3.And(eq_goal(w * w, x + Q(0, 1) * y), (w.real >= 0).c)
+        w_default = Q.of(fns['_sqrt_neg_python'](x + Q(0, 1) * y))         # the call every user of sqrt_neg(z) makes: the defaults of the signature are part of the function
+        goal = z3.And(eq_goal(w * w, x + Q(0, 1) * y), (w.real >= 0).c, eq_goal(w_default, w))
         if 'Re z < 0' in region:
             goal = z3.And(goal, (w.imag >= 0).c)
 
@@ -549,7 +585,7 @@ def job_sqrt_neg():
             r = replay.call_real([{'module': 'TidalPy.utilities.math.special', 'func': 'sqrt_neg', 'args': [z]}, {'module': 'TidalPy.utilities.math.complex', 'func': 'csqrt', 'args': [z]}])
             a, b = r[0].get('value'), r[1].get('value')
             return (a is None) or abs(a - cmath.sqrt(z)) > 1e-14 * abs(cmath.sqrt(z)), 'sqrt_neg(%r)=%r csqrt=%r cmath=%r' % (z, a, b, cmath.sqrt(z))
-        results.append(discharge(Obligation('interpreted _sqrt_neg_python (complex branch) is the principal square root, region %s' % region, goal, A, replay=rp, key='sqrt_neg:%s' % region)))
+        results.append(discharge(Obligation('interpreted _sqrt_neg_python (complex branch, called with is_real=False and with its default arguments) is the principal square root, region %s' % region, goal, A, replay=rp, key='sqrt_neg:%s' % region)))
     CTX.facts = [x.re != 0]
 
     def rp_real(md):
@@ -580,7 +616,7 @@ def main():
                        '(b) the same cf_csqrt source executed with IEEE Float64 values in QF_FP, one query per C99 G.6.4.2 clause (and conjugate-symmetric twins); (c) cf_cipow / the cf_cpow integer fast path '
                        'executed for each concrete exponent on one real indeterminate (field operations only) and compared with a^n; (d) the 51 literals of the double-factorial table against n!! '
                        '(exact below 2^53, nearest double above), index/extent and the Gamma recursion with exact Gamma; (e) the interpreted sqrt_neg against the principal square root.',
-        'bounds': 'finite |x|,|y| <= THRESH/2 for (a); exponents -40..40 quick, -200..200 thorough (|n| >= 100 goes through clog/cexp in the source and is reported as a harness error if reached); Float64 for (b).',
+        'bounds': 'csqrt and hypot in (a): |x|,|y| <= THRESH/2 with the source constant, and unbounded x, y with the overflow threshold as a positive symbol (covers the scaled branch); <= THRESH/2 for exp/log/pow structure; exponents -40..40 quick, -200..200 thorough (|n| >= 100 goes through clog/cexp in the source and is reported as a harness error if reached); Float64 for (b).',
         'outside': '"within a few ulp" accuracy of finite results; cexp/clog values (libm exp, log, sin, cos, atan2); overflow scaling branch of csqrt; cpow with non-integer exponents.',
         'assumptions': ['libm sqrt is exact real sqrt in (a)'],
         'stubs': ['isinf/isnan False in real-arithmetic mode', 'tgamma(n+1) = n! exactly in the recursion obligation'],
